@@ -10,7 +10,7 @@ SPEC = {
         'validation callbacks on the scheduler thread, drained before every wallet call',
     ],
     'stages': [
-        gen('vh_c56', 'c56_bump', 240, 4400, min_cases_quick=80,
+        gen('vh_c56', 'c56_bump', 240, 4400, min_cases_quick=48, max_seconds_quick=900, max_seconds_thorough=7200,
             floors={'payment': 0.8, 'bump-default': 0.15, 'bump-explicit-rate': 0.1, 'bump-new-outputs': 0.08, 'bump-reduce-change': 0.1, 'refused-confirmed': 0.05,
                     'refused-already-bumped': 0.05, 'refused-has-descendants': 0.03, 'mixed-payment': 0.1},
             rule='wallet payments + bumps; non-trivial = >=1 accepted replacement and >=1 refusal of a confirmed / already bumped / has-descendants original'),
